@@ -26,7 +26,7 @@ use zipora::memory::{
 };
 
 const HEADER: &str = r#"From ZV.Common Require Import Base Run.
-From ZV.C08 Require Import Model ModelFixedCap Cases.
+From ZV.C08 Require Import Model ModelFixedCap ModelSecure Cases.
 Open Scope N_scope.
 (* the case types and the functions that run the models on them are in coq/C08/Cases.v *)
 Definition case_t : Type := xcase.
@@ -262,6 +262,10 @@ struct RunOut {
     notes: Vec<(usize, u32, u64)>,
     held: Vec<Vec<u64>>,
     ever: BTreeSet<u64>,
+    /// blocks in the order in which they were first handed out
+    order: Vec<u64>,
+    /// for every entry of `eff`: the number of notes logged before that turn
+    eff_notes: Vec<usize>,
     fails: Vec<(Option<String>, String)>,
     exit_info: Vec<Vec<u64>>,
     aborted: bool,
@@ -292,7 +296,7 @@ fn controlled_run<C: Cell>(
         handles.push(std::thread::Builder::new().stack_size(1 << 20).spawn(move || worker(c, b, t)).unwrap());
     }
     let mut out = RunOut {
-        eff: vec![], notes: vec![], held: vec![vec![]; n], ever: BTreeSet::new(), fails: vec![], exit_info: vec![vec![]; n],
+        eff: vec![], notes: vec![], held: vec![vec![]; n], ever: BTreeSet::new(), order: vec![], eff_notes: vec![], fails: vec![], exit_info: vec![vec![]; n],
         aborted: false, allocs_ok: 0, frees: 0, alloc_calls: 0,
     };
     let mut owner: HashMap<u64, usize> = HashMap::new();
@@ -346,6 +350,7 @@ fn controlled_run<C: Cell>(
             g.result[t] = None;
         }
         out.eff.push((t, cm));
+        out.eff_notes.push(out.notes.len());
         if !baton.give(t) {
             out.fails.push((None, format!("thread {} did not reach a schedule point within 10 s", t)));
             hung = true;
@@ -374,7 +379,7 @@ fn controlled_run<C: Cell>(
                         out.fails.push((None, format!("block {} handed to thread {} while thread {} owns it", b, t, o)));
                     }
                     owner.insert(b, t);
-                    out.ever.insert(b);
+                    if out.ever.insert(b) { out.order.push(b); }
                     out.held[t].push(b);
                 }
                 (Some(Op::Alloc), Some(OpResult::Failed(_))) => {}
@@ -878,13 +883,18 @@ impl Watch for SharedWatch {
     fn on_note(&mut self, tid: usize, site: u32, val: u64) -> Option<(String, String)> { self.0.lock().unwrap().on_note(tid, site, val) }
 }
 
-/// SecureMemoryPool (thread-local cache of one chunk in front of the shared Treiber stack), oracle only.
-fn run_sp(cx: &mut Ctx, cache: usize, progs: &[Vec<Op>], sched: &[usize]) {
+/// SecureMemoryPool (thread-local caches in front of the shared Treiber stack): the oracle, and every run that is
+/// not cut short by one of the recorded stack findings is replayed on the model of coq/C08/ModelSecure.v.
+/// `preset` 0: SecurePoolConfig::new(64, 100, 8); 1: small_secure() (batch_size 16) - both with the given
+/// local_cache_size, so that local_cache_size < batch_size - 1 and chunks spill to the shared stack.
+fn run_sp(cx: &mut Ctx, cache: usize, preset: u64, progs: &[Vec<Op>], sched: &[usize], force: bool) {
     let cellname = "SecureMemoryPool/controlled";
-    let cj = case_json("SP", cache, 0, progs, sched);
-    cx.sum.cell_status(cellname, "S-only");
+    let mut cj = case_json("SP", cache, 0, progs, sched);
+    if preset != 0 { cj["preset"] = json!(preset); }
+    cx.sum.cell_status(cellname, "M+S");
     cx.sum.eval(cellname, &cj.to_string(), progs.iter().filter(|p| !p.is_empty()).count() >= 2);
-    let cfg = SecurePoolConfig::new(64, 100, 8).with_local_cache_size(cache).with_cache_alignment(false)
+    let base = if preset == 1 { SecurePoolConfig::small_secure() } else { SecurePoolConfig::new(64, 100, 8) };
+    let cfg = base.with_local_cache_size(cache).with_cache_alignment(false)
         .with_cache_config(None).with_numa_awareness(false).with_hot_cold_separation(false).with_huge_pages(false).with_simd_ops(false);
     let pool = match SecureMemoryPool::new(cfg) { Ok(p) => p, Err(e) => { cx.sum.fail(cellname, None, cj, &format!("pool creation failed: {}", e)); return; } };
     let cell = Arc::new(SpCell { pool: pool.clone() });
@@ -892,6 +902,8 @@ fn run_sp(cx: &mut Ctx, cache: usize, progs: &[Vec<Op>], sched: &[usize]) {
     let w = Arc::new(Mutex::new(SpWatch { live: BTreeSet::new(), stack: vec![], loaded: HashMap::new(), read_next: HashMap::new(), push_node: HashMap::new() }));
     let w2 = w.clone();
     let p2 = pool.clone();
+    let mut stack_chunks: Option<Vec<u64>> = None;
+    let mut counters: Vec<u64> = vec![];
     let mut inspect = |o: &RunOut| -> Vec<(Option<String>, String)> {
         let mut f = vec![];
         let w = w2.lock().unwrap();
@@ -926,6 +938,9 @@ fn run_sp(cx: &mut Ctx, cache: usize, progs: &[Vec<Op>], sched: &[usize]) {
         if st.pool_hits + st.pool_misses != st.alloc_count { f.push((None, format!("pool_hits {} + pool_misses {} != alloc_count {}", st.pool_hits, st.pool_misses, st.alloc_count))); }
         if p2.verif_active_len() != owned.len() { f.push((None, format!("active-allocation table has {} entries, {} chunks are live", p2.verif_active_len(), owned.len()))); }
         if let Err(e) = p2.validate() { f.push((None, format!("validate() fails at quiescence: {}", e))); }
+        stack_chunks = Some(in_stack);
+        counters = vec![st.alloc_count, st.dealloc_count, st.pool_hits, st.pool_misses, st.local_cache_hits, st.cross_thread_steals,
+                        st.double_free_detected, p2.verif_active_len() as u64];
         f
     };
     let scr = |_b: u64, _v: u64| -> u64 { 0 };
@@ -935,6 +950,8 @@ fn run_sp(cx: &mut Ctx, cache: usize, progs: &[Vec<Op>], sched: &[usize]) {
         eprintln!("held {:x?} exit_info {:x?} eff {}", out.held, out.exit_info, out.eff.len());
     }
     cx.sum.dist_max("max_steps_controlled", out.eff.len() as u64);
+    if out.notes.iter().any(|&(_, s, _)| s == vs::SP_PUSH_CAS) { cx.sum.dist("secure_runs_with_spill_to_stack"); }
+    if out.notes.iter().any(|&(_, s, v)| s == vs::SP_POP_CAS && v == 1) { cx.sum.dist("secure_runs_with_refill_from_stack"); }
     for (cl, d) in &out.fails {
         let class = match cl.as_deref() {
             Some(c) => Some(c.to_string()),
@@ -942,6 +959,33 @@ fn run_sp(cx: &mut Ctx, cache: usize, progs: &[Vec<Op>], sched: &[usize]) {
         };
         cx.sum.fail(cellname, class.as_deref(), cj.clone(), d);
     }
+    // Coq case: chunks are named by their serial number (order of creation = order of first appearance)
+    if out.aborted || out.eff.len() > 400 || counters.is_empty() { return; }
+    let stack_chunks = match stack_chunks { Some(x) => x, None => return };
+    if !cx.room("SP", force) { return; }
+    let serial: HashMap<u64, u64> = out.order.iter().enumerate().map(|(i, &a)| (a, i as u64)).collect();
+    let ser = |a: &u64| -> u128 { serial.get(a).cloned().unwrap_or(u64::MAX) as u128 };
+    let sc: Vec<String> = out.eff.iter().enumerate().map(|(i, (t, c))| format!("({}%nat, {})", t, match c {
+        Cm::Pop => "SAlloc".to_string(),
+        Cm::Push(b) => {
+            // the node address the allocator returned, if this free spilled to the shared stack
+            let from = out.eff_notes[i];
+            let a = out.notes[from..].iter().find(|&&(tt, s, _)| tt == *t && s == vs::SP_PUSH_NEXT).map(|&(_, _, v)| v).unwrap_or(0);
+            format!("SFree {} {}", ser(b), a)
+        }
+        _ => "SNone".to_string(),
+    })).collect();
+    let notes: Vec<u128> = out.notes.iter().flat_map(|&(_, s, v)| vec![norm_site(s) as u128, v as u128]).collect();
+    let helds: Vec<String> = out.held.iter().map(|h| coq_n_list(h.iter().map(&ser))).collect();
+    // LocalCache.chunks is a Vec used as a stack: the model lists the top first
+    let caches: Vec<String> = out.exit_info.iter().map(|c| coq_n_list(c.iter().rev().map(&ser))).collect();
+    let term = format!("XSP ({}, {}%nat, [{}], {}, Some {}, [{}], [{}], {})",
+        cache, progs.len(), sc.join("; "), coq_n_list(notes), coq_n_list(stack_chunks.iter().map(&ser)),
+        helds.join("; "), caches.join("; "), coq_n_list(counters.iter().map(|&x| x as u128)));
+    let mut c2 = cj.clone();
+    c2["impl_counters"] = json!(counters);
+    c2["impl_stack_len"] = json!(stack_chunks.len());
+    cx.shards.push(term, c2);
 }
 
 fn run_case(cx: &mut Ctx, c: &Value, force: bool) {
@@ -959,7 +1003,7 @@ fn run_case(cx: &mut Ctx, c: &Value, force: bool) {
             let sizes = if sizes.is_empty() { vec![size] } else { sizes };
             run_fc(cx, &sizes, c["clear"].as_bool().unwrap_or(false), slots.clamp(1, 64), &progs, &sched, force)
         }
-        "SP" => run_sp(cx, size.clamp(1, 8), &progs, &sched),
+        "SP" => run_sp(cx, size.clamp(1, 8), c["preset"].as_u64().unwrap_or(0), &progs, &sched, force),
         _ => {}
     }
 }
@@ -1572,6 +1616,29 @@ pub fn run(args: &Args) {
             }
         }
     }
+    // 2d. SecureMemoryPool with local_cache_size < batch_size - 1 (both presets): one thread fills its cache and
+    //     spills the surplus to the shared stack, another thread refills from there; also the stalled-pop window
+    {
+        let filler = vec![Op::Alloc, Op::Alloc, Op::Alloc, Op::Alloc, Op::Alloc, Op::Alloc, Op::Free(0), Op::Free(0), Op::Free(0), Op::Free(0), Op::Free(0), Op::Free(0), Op::Alloc];
+        let taker = vec![Op::Alloc, Op::Alloc, Op::Alloc, Op::Free(0), Op::Free(1), Op::Alloc, Op::Free(0)];
+        for &(cache, preset) in &[(1usize, 0u64), (4, 1), (2, 1), (4, 0)] {
+            let mut sched: Vec<usize> = vec![WHOLE_OP; 12];
+            sched.extend(std::iter::repeat(WHOLE_OP + 1).take(taker.len()));
+            run_sp(&mut cx, cache, preset, &[filler.clone(), taker.clone()], &sched, false);
+            let reps = if args.thorough { 10 } else { 3 };
+            for _ in 0..reps {
+                let sched = gen_sched(&mut rng, 2, 120);
+                run_sp(&mut cx, cache, preset, &[filler.clone(), taker.clone()], &sched, false);
+            }
+            for k in 1..=3usize {
+                let p0 = vec![Op::Alloc, Op::Alloc, Op::Alloc, Op::Free(0), Op::Free(0), Op::Free(0), Op::Alloc, Op::Alloc, Op::Alloc];
+                let mut sched: Vec<usize> = vec![WHOLE_OP; 6 + cache.min(2)];
+                sched.extend(std::iter::repeat(0).take(k));
+                sched.extend(std::iter::repeat(WHOLE_OP + 1).take(3));
+                run_sp(&mut cx, cache, preset, &[p0, vec![Op::Alloc, Op::Free(0), Op::Alloc]], &sched, false);
+            }
+        }
+    }
     // 3. random programs and schedules
     let nrand = if args.thorough { 6000 } else { 800 };
     for k in 0..nrand {
@@ -1590,7 +1657,7 @@ pub fn run(args: &Args) {
             }
             _ => {
                 let progs: Vec<Vec<Op>> = (0..n).map(|_| gen_prog(&mut rng, plen + 3, true, slots)).collect();
-                run_sp(&mut cx, *rng.pick(&[1usize, 1, 2]), &progs, &sched);
+                run_sp(&mut cx, *rng.pick(&[1usize, 1, 2, 4]), (k / 4) % 3 / 2, &progs, &sched, false);
             }
         }
         if k < 3 { cx.sum.sample(json!({"programs": progs_json(&progs), "schedule_prefix": sched.iter().take(24).collect::<Vec<_>>()})); }
